@@ -636,12 +636,24 @@ def grouper_add_dispatch(ex, path, recv, ca, node):
 CLASSES["SpecListGrouper"].methods["add"] = grouper_add_dispatch
 
 
+GKEY = z3.Function("GROUPER_KEY", Int, Int, Str)  # build_key: the registry key of (spec list, group)
+
+
+def fresh_keys_unregistered(s0, s, specs, groups):
+    """ASSUMED (id() of a live object is unique): the registry keys of a spec list created by THIS call are keys of
+    no registered executor - every registered key was built from a list that was alive before the call."""
+    from .model import reg_has
+    return z3.Implies(specs >= s0["ghost.alloc"], z3.And(*[z3.Not(reg_has(s, GKEY(specs, G(g)))) for g in groups]))
+
+
 @model
 def speclist_grouper(ex, path, recv, ca, node):
     """CallbackSpecList.grouper(group) — ASSUMED: the (cached) grouper of this list for that group."""
     g = path.alloc("SpecListGrouper", "grouper")
     path.store("SpecListGrouper.list", g.e, recv.e)
     path.store("SpecListGrouper.group", g.e, ref_of(ca.pos[0]))
+    # SpecListGrouper.__init__: `self.key = group.build_key(list)` = f"{group.name}@{id(list)}", a function of the pair
+    path.store("SpecListGrouper.key", g.e, GKEY(recv.e, ref_of(ca.pos[0])))
     return [(path, g)]
 
 
@@ -752,11 +764,117 @@ class TransitionInit(Contract):
         for attr, gname in gs.items():
             g = s.sel("Transition." + attr, t)
             f[f"C15|{attr}-is-the-{gname}-grouper-of-the-own-spec-list"] = z3.And(
-                s.sel("SpecListGrouper.list", g) == specs, s.sel("SpecListGrouper.group", g) == G(gname), g >= s0["ghost.alloc"])
+                s.sel("SpecListGrouper.list", g) == specs, s.sel("SpecListGrouper.group", g) == G(gname), g >= s0["ghost.alloc"],
+                g < s["ghost.alloc"], s.sel("SpecListGrouper.key", g) == GKEY(specs, G(gname)))
         return f
+
+    def derived(self, s0, s, a, r):
+        return {"assumed|keys-of-the-new-spec-list-are-registered-nowhere": fresh_keys_unregistered(
+            s0, s, s.sel("Transition._specs", a.self.e), ("VALIDATOR", "BEFORE", "ON", "AFTER", "COND"))}
+
+    def assumptions(self):
+        return ["id() uniqueness: registry keys built from a spec list created by Transition.__init__ collide with no registered key"]
 
     def exc_post(self, s0, s, a, x):
         return {"C09|rejected-only-if-internal-and-not-a-self-transition": z3.And(a.internal.e, a.source.e != a.target.e)}
+
+
+# =========================================================================== State.__init__ / CallbackSpecList.clear
+def tl_ctor(ex, path, ca, node):
+    """TransitionList() - ASSUMED constructor without arguments: an empty list of transitions."""
+    if ca.pos or ca.kw:
+        raise Unsupported("TransitionList(<transitions>)")
+    tl = path.alloc("TransitionList", "tlist")
+    path.store("TransitionList.transitions", tl.e, ex.new_list(path, []).e)
+    return [(path, tl)]
+
+
+CLASSES["TransitionList"].ctor = tl_ctor
+
+
+@register
+class StateInit(Contract):
+    """State.__init__ (C02, C11, C15): the fields are stored as given; the state gets an empty transition
+    list and its own fresh spec list whose ENTER / EXIT groupers are `enter` / `exit`; no callbacks given
+    means an empty spec list."""
+
+    qualnames = [STQ + "State.__init__"]
+    params = [("self", "State"), ("name", "str"), ("value", "Val"), ("initial", "bool"), ("final", "bool"), ("enter", "Val"), ("exit", "Val")]
+    returns = "None"
+    modifies = ADD_MODIFIES + ["State.name", "State.value", "State._initial", "State._final", "State._id", "State.transitions",
+                               "State._specs", "State.enter", "State.exit", "SpecListGrouper.list+", "SpecListGrouper.group+",
+                               "SpecListGrouper.key+", "CallbackSpecList.items+", "CallbackSpecList.conventional_specs+",
+                               "TransitionList.transitions+"]
+    properties = ["C02", "C11", "C15"]
+
+    def post(self, s0, s, a, r):
+        st = a.self.e
+        al0 = s0["ghost.alloc"]
+        specs = s.sel("State._specs", st)
+        arr, n = spec_items(s, specs)
+        tl = s.sel("State.transitions", st)
+        o = z3.Const("o!sti", Int)
+        f = {
+            "C15|fields-stored-as-given": z3.And(
+                s.sel("State.name", st) == a.name.e, s.sel("State.value", st) == a.value.e,
+                s.sel("State._initial", st) == a.initial.e, s.sel("State._final", st) == a.final.e),
+            "C15|own-empty-transition-list": z3.And(tl >= al0, tl < s["ghost.alloc"], s.sel("TransitionList.transitions", tl) >= al0,
+                                                    s.sel("list.len", s.sel("TransitionList.transitions", tl)) == 0),
+            "C15|own-spec-list-is-fresh-and-well-formed": z3.And(
+                specs >= al0, s.sel("CallbackSpecList.items", specs) >= al0,
+                s.sel("CallbackSpecList.conventional_specs", specs) >= al0, spec_list_wf(s, specs)),
+            "C15|no-callbacks-given-means-an-empty-spec-list": z3.Implies(z3.And(a.enter.e == NONE, a.exit.e == NONE), n == 0),
+            "pre-existing-lists-and-sets-untouched": z3.ForAll([o], z3.Implies(z3.And(o >= 0, o < al0), z3.And(
+                z3.Select(s["list.arr"], o) == z3.Select(s0["list.arr"], o), z3.Select(s["list.len"], o) == z3.Select(s0["list.len"], o),
+                z3.Select(s["set.has"], o) == z3.Select(s0["set.has"], o))),
+                patterns=[z3.Select(s["list.arr"], o), z3.Select(s["list.len"], o), z3.Select(s["set.has"], o)]),
+            "only-this-states-fields-are-written": z3.And(*[
+                z3.ForAll([o], z3.Implies(o != st, z3.Select(s["State." + fld], o) == z3.Select(s0["State." + fld], o)),
+                          patterns=[z3.Select(s["State." + fld], o)])
+                for fld in ("name", "value", "_initial", "_final", "_id", "transitions", "_specs", "enter", "exit")]),
+        }
+        for attr, gname in (("enter", "ENTER"), ("exit", "EXIT")):
+            g = s.sel("State." + attr, st)
+            f[f"C02,C15|{attr}-is-the-{gname}-grouper-of-the-own-spec-list"] = z3.And(
+                s.sel("SpecListGrouper.list", g) == specs, s.sel("SpecListGrouper.group", g) == G(gname), g >= al0, g < s["ghost.alloc"],
+                s.sel("SpecListGrouper.key", g) == GKEY(specs, G(gname)))
+        return f
+
+    def derived(self, s0, s, a, r):
+        return {"assumed|keys-of-the-new-spec-list-are-registered-nowhere": fresh_keys_unregistered(
+            s0, s, s.sel("State._specs", a.self.e), ("ENTER", "EXIT"))}
+
+    def assumptions(self):
+        return ["id() uniqueness: registry keys built from a spec list created by State.__init__ collide with no registered key"]
+
+
+StateInit.defaults = {"name": S(z3.StringVal("")), "value": NoneV(), "initial": B(z3.BoolVal(False)), "final": B(z3.BoolVal(False)),
+                      "enter": NoneV(), "exit": NoneV()}
+
+
+@register
+class SpecListClear(Contract):
+    """CallbackSpecList.clear(): the list holds no spec afterwards; no other list is touched."""
+
+    qualnames = [CBQ + "CallbackSpecList.clear"]
+    params = [("self", "CallbackSpecList")]
+    returns = "None"
+    modifies = ["CallbackSpecList.items", "list.arr+", "list.len+"]
+    properties = ["C02", "C11"]
+
+    def post(self, s0, s, a, r):
+        me = a.self.e
+        o = z3.Const("o!slc", Int)
+        arr, n = spec_items(s, me)
+        return {
+            "C02,C11|no-spec-left": z3.And(n == 0, valid_obj(s, s.sel("CallbackSpecList.items", me))),
+            "only-this-lists-items-replaced": z3.ForAll([o], z3.Implies(
+                o != me, z3.Select(s["CallbackSpecList.items"], o) == z3.Select(s0["CallbackSpecList.items"], o)),
+                patterns=[z3.Select(s["CallbackSpecList.items"], o)]),
+        }
+
+
+CLASSES["CallbackSpecList"].methods["clear"] = C(CBQ + "CallbackSpecList.clear")
 
 
 # =========================================================================== _copy_with_args (real body)
@@ -771,6 +889,8 @@ def ctor_via_contract(clsname, qual):
 TransitionInit.defaults = {"event": NoneV(), "internal": B(z3.BoolVal(False)), "validators": NoneV(), "cond": NoneV(),
                            "unless": NoneV(), "on": NoneV(), "before": NoneV(), "after": NoneV()}
 CLASSES["Transition"].ctor = ctor_via_contract("Transition", TRQ + "__init__")
+CLASSES["State"].ctor = ctor_via_contract("State", STQ + "State.__init__")
+GLOBAL_NAMES.setdefault("State", Py(("class", "State")))
 CLASSES["Transition"].props["event"] = CLASSES["Transition"].props.get("event", C("diagram:transition.event"))
 
 
